@@ -41,9 +41,13 @@ template<class T> constexpr const T& min(const T&a,const T&b){ return (b<a)?b:a;
 template<class T> class initializer_list { const T* _M_array; size_t _M_len; constexpr initializer_list(const T*a,size_t l):_M_array(a),_M_len(l){} public: constexpr initializer_list():_M_array(0),_M_len(0){} constexpr size_t size()const{return _M_len;} constexpr const T* begin()const{return _M_array;} constexpr const T* end()const{return _M_array+_M_len;} };
 template<class A,class B> struct pair { A first; B second; pair():first(),second(){} pair(const A&a,const B&b):first(a),second(b){} template<class A2,class B2> pair(const pair<A2,B2>&o):first(o.first),second(o.second){} };
 template<class A,class B> pair<A,B> make_pair(A a,B b){ return pair<A,B>(a,b); }
+template<class A,class B> bool operator==(const pair<A,B>&x,const pair<A,B>&y){ return x.first==y.first && x.second==y.second; }
+template<class T> void swap(T&a,T&b){ T t=a; a=b; b=t; }
+template<class T> constexpr T abs(T a){ return a<0?-a:a; }
+template<class T> constexpr const T& clamp(const T&v,const T&lo,const T&hi){ return (v<lo)?lo:(hi<v)?hi:v; }
 template<class A,class B> bool operator<(const pair<A,B>&x,const pair<A,B>&y){ if(x.first<y.first) return true; if(y.first<x.first) return false; return x.second<y.second; }
 struct nullopt_t{}; constexpr nullopt_t nullopt{};
-template<class T> struct optional { bool has; T v; optional():has(false),v(){} optional(nullopt_t):has(false),v(){} optional(const T&x):has(true),v(x){} explicit operator bool()const{return has;} T& operator*(){ __CPROVER_assert(has,"ministl: optional deref (UB)"); return v;} T* operator->(){ __CPROVER_assert(has,"ministl: optional deref (UB)"); return &v;} };
+template<class T> struct optional { bool has; T v; optional():has(false),v(){} optional(nullopt_t):has(false),v(){} optional(const T&x):has(true),v(x){} explicit operator bool()const{return has;} bool has_value()const{return has;} T& value(){ __CPROVER_assert(has,"ministl: optional value() without value (throws)"); return v;} T value_or(const T&d)const{ return has? v : d; } void reset(){ has=false; } T& operator*(){ __CPROVER_assert(has,"ministl: optional deref (UB)"); return v;} T* operator->(){ __CPROVER_assert(has,"ministl: optional deref (UB)"); return &v;} };
 
 template<class T> constexpr bool __triv = __is_trivially_copyable(T) && __is_trivially_destructible(T);
 template<class T,int CAP,bool TRIV=__triv<T>> struct __flat;
@@ -98,8 +102,18 @@ struct string {
   string():n(0),trunc(0){ for(int i=0;i<MINISTL_STR_CAP;i++) b[i]=0; }
   string(const char*s):n(0),trunc(0){ for(int i=0;i<MINISTL_STR_CAP;i++) b[i]=0; bool live=true; for(int k=0;k<MINISTL_STR_CAP;k++){ if(live && s[k]==0) live=false; if(live) __push(s[k]); } if(live) trunc=1; }
   void __push(char c){ if(n<MINISTL_STR_CAP-1){ b[n]=c; n++; } else trunc=1; }
-  size_t size()const{return n;}
-  const char* c_str()const{return b;}
+  static constexpr size_t npos=(size_t)-1;
+  size_t size()const{return n;} size_t length()const{return n;} bool empty()const{return n==0;}
+  void clear(){ for(int i=0;i<MINISTL_STR_CAP;i++) b[i]=0; n=0; trunc=0; }
+  void push_back(char c){ __push(c); } string& operator+=(char c){ __push(c); return *this; }
+  string& append(const string&o){ return *this+=o; }
+  char& operator[](size_t i){ __CPROVER_assert(i<=(size_t)n&&i<MINISTL_STR_CAP,"ministl: string index out of range (UB)"); return b[i]; }
+  const char& operator[](size_t i)const{ __CPROVER_assert(i<=(size_t)n&&i<MINISTL_STR_CAP,"ministl: string index out of range (UB)"); return b[i]; }
+  char& back(){ __CPROVER_assert(n>0,"ministl: back() on empty string (UB)"); return b[n-1]; } char& front(){ __CPROVER_assert(n>0,"ministl: front() on empty string (UB)"); return b[0]; }
+  size_t find(char c,size_t from=0)const{ size_t r=npos; for(int i=MINISTL_STR_CAP-1;i>=0;i--) if((size_t)i>=from && i<n && b[i]==c) r=i; return r; }
+  int compare(const string&o)const{ return (*this<o)?-1:(o<*this)?1:0; }
+  bool starts_with(const string&o)const{ bool e=o.n<=n; for(int i=0;i<MINISTL_STR_CAP;i++) if(i<o.n) e = e & (b[i]==o.b[i]); return e; }
+  const char* c_str()const{return b;} const char* data()const{return b;}
   char* begin(){return b;} char* end(){return b+n;}
   string& operator+=(const string&o){ for(int i=0;i<MINISTL_STR_CAP;i++) if(i<o.n) __push(o.b[i]); if(o.trunc) trunc=1; return *this; }
   string& operator+=(const char*s){ bool live=true; for(int k=0;k<MINISTL_STR_CAP;k++){ if(live && s[k]==0) live=false; if(live) __push(s[k]); } if(live) trunc=1; return *this; }
@@ -116,6 +130,9 @@ inline bool operator!=(const string&a,const char*s){ return !(a==string(s)); }
 inline string operator+(const string&a,const string&b){ string r=a; r+=b; return r; }
 inline string operator+(const string&a,const char*b){ string r=a; r+=b; return r; }
 inline string operator+(const char*a,const string&b){ string r(a); r+=b; return r; }
+inline string operator+(const string&a,char c){ string r=a; r.__push(c); return r; }
+inline bool operator>(const string&a,const string&b){ return b<a; } inline bool operator<=(const string&a,const string&b){ return !(b<a); } inline bool operator>=(const string&a,const string&b){ return !(a<b); }
+inline int stoi(const string&s){ return (int)strtol(s.c_str(),0,10); } inline long stol(const string&s){ return strtol(s.c_str(),0,10); }
 inline string to_string(long v){ string r; char tmp[20]; int k=0; bool neg=v<0; unsigned long u=neg?-(unsigned long)v:v; for(int i=0;i<20;i++){ if(i==0||u){ tmp[k++]='0'+u%10; u/=10; } } if(neg) r.__push('-'); for(int i=19;i>=0;i--) if(i<k) r.__push(tmp[i]); return r; }
 inline string to_string(int v){ return to_string((long)v); } inline string to_string(unsigned v){ return to_string((long)v); } inline string to_string(unsigned long v){ return to_string((long)v); }
 
@@ -134,6 +151,16 @@ template<class T> struct vector : __flat<T,__cap<T>::v> {
   void resize(size_t k){ __CPROVER_assert(k<=(size_t)VCAP,"ministl: vector capacity (model bound)"); for(int i=VCAP-1;i>=0;i--) if((size_t)i>=k && i<n) u.d[i].~T(); for(int i=0;i<VCAP;i++) if(i>=n && (size_t)i<k) new(&u.d[i]) T(); n=(int)k; }
   void resize(size_t k,const T&x){ __CPROVER_assert(k<=(size_t)VCAP,"ministl: vector capacity (model bound)"); for(int i=VCAP-1;i>=0;i--) if((size_t)i>=k && i<n) u.d[i].~T(); for(int i=0;i<VCAP;i++) if(i>=n && (size_t)i<k) new(&u.d[i]) T(x); n=(int)k; }
   T& back(){ __CPROVER_assert(n>0,"ministl: back() on empty vector (UB)"); return __at(n-1); }
+  const T& back()const{ __CPROVER_assert(n>0,"ministl: back() on empty vector (UB)"); return __at(n-1); }
+  T& front(){ __CPROVER_assert(n>0,"ministl: front() on empty vector (UB)"); return u.d[0]; }
+  T& at(size_t i){ __CPROVER_assert(i<(size_t)n,"ministl: vector::at out of range (throws)"); return __at((long)i); }
+  template<class... A> T& emplace_back(A&&... a){ push_back(T(static_cast<A&&>(a)...)); return __at(n-1); }
+  void reserve(size_t k){ __CPROVER_assert(k<=(size_t)VCAP,"ministl: vector capacity (model bound)"); } size_t capacity()const{ return VCAP; } void shrink_to_fit(){}
+  void assign(size_t k,const T&x){ clear(); resize(k,x); }
+  iterator insert(iterator at,const T&x){ const T*p=&x; insert(at,p,p+1); return at; }
+  iterator erase(iterator at){ erase(at,at+1); return at; }
+  const_iterator cbegin()const{ return begin(); } const_iterator cend()const{ return end(); }
+  bool operator==(const vector&o)const{ bool e=n==o.n; for(int i=0;i<VCAP;i++) if(i<n&&i<o.n) e = e && (u.d[i]==o.u.d[i]); return e; }
   T& operator[](size_t i){ __CPROVER_assert(i<(size_t)n,"ministl: vector index out of range (UB)"); return __at((long)i); }
   const T& operator[](size_t i)const{ __CPROVER_assert(i<(size_t)n,"ministl: vector index out of range (UB)"); return __at((long)i); }
   size_t size()const{return n;} bool empty()const{return n==0;}
@@ -149,6 +176,7 @@ template<class T> struct vector : __flat<T,__cap<T>::v> {
     for(int j=0;j<VCAP;j++) if(k>0 && j>=a && j+k<n){ new(&u.d[j]) T(__at(j+k)); __at(j+k).~T(); }
     n-=k; }
 };
+template<class T,class U2> void erase(vector<T>&v,const U2&x){ vector<T> r; for(int i=0;i<vector<T>::VCAP;i++) if(i<v.n && !(v.u.d[i]==x)) r.push_back(v.u.d[i]); v=r; }
 template<class T,class P> void erase_if(vector<T>&v,P pr){ vector<T> r; for(int i=0;i<vector<T>::VCAP;i++) if(i<v.n && !pr(v.u.d[i])) r.push_back(v.u.d[i]); v=r; }
 
 template<class K,class V> struct __mcap { static constexpr int v = MINISTL_MAP_CAP; };
@@ -171,7 +199,11 @@ template<class K,class V> struct map : __flat<pair<K,V>,__mcap<K,V>::v> {
   const_iterator begin()const{ return const_iterator(this,0); } const_iterator end()const{ return const_iterator(this,n); }
   reverse_iterator rbegin(){ return reverse_iterator(this,n); } reverse_iterator rend(){ return reverse_iterator(this,0); }
   iterator find(const K&k){ return __has(k) ? iterator(this,lower(k)) : end(); }
-  bool contains(const K&k)const{ return __has(k); }
+  bool contains(const K&k)const{ return __has(k); } size_t count(const K&k)const{ return __has(k)?1:0; } bool empty()const{ return n==0; }
+  V& at(const K&k){ __CPROVER_assert(__has(k),"ministl: map::at key not found (throws)"); return __at(lower(k)).second; }
+  size_t erase(const K&k){ if(!__has(k)) return 0; erase(iterator(this,lower(k))); return 1; }
+  template<class V2> void emplace(const K&k,const V2&v){ insert(slot(k,V(v))); }
+  template<class V2> void insert_or_assign(const K&k,const V2&v){ (*this)[k]=V(v); }
   void __ins(int i,const K&k,const V&v){ __CPROVER_assert(n<MCAP,"ministl: map capacity (model bound)"); for(int j=MCAP-1;j>0;j--) if(j<=n && j>i){ new(&u.d[j]) slot(u.d[j-1]); u.d[j-1].~slot(); } new(&__at(i)) slot(k,v); n++; }
   V& operator[](const K&k){ int i=lower(k); if(!__has(k)) __ins(i,k,V()); return __at(i).second; }
   void insert(const slot&p){ if(!__has(p.first)) __ins(lower(p.first),p.first,p.second); }
@@ -190,7 +222,9 @@ template<class K> struct set : __flat<K,__scap<K>::v> {
   int lower(const K&k)const{ int r=0; for(int i=0;i<SCAP;i++) if(i<n && u.d[i]<k) r++; return r; }
   bool __has(const K&k)const{ bool h=false; for(int i=0;i<SCAP;i++) if(i<n && !(u.d[i]<k) && !(k<u.d[i])) h=true; return h; }
   iterator begin()const{ return iterator(this,0); } iterator end()const{ return iterator(this,n); }
-  bool contains(const K&k)const{ return __has(k); }
+  bool contains(const K&k)const{ return __has(k); } size_t count(const K&k)const{ return __has(k)?1:0; } bool empty()const{ return n==0; }
+  iterator find(const K&k)const{ return __has(k) ? iterator(this,lower(k)) : end(); }
+  void emplace(const K&k){ insert(k); }
   void insert(const K&k){ if(__has(k)) return; int i=lower(k); __CPROVER_assert(n<SCAP,"ministl: set capacity (model bound)"); for(int j=SCAP-1;j>0;j--) if(j<=n && j>i){ new(&u.d[j]) K(u.d[j-1]); u.d[j-1].~K(); } new(&__at(i)) K(k); n++; }
   size_t erase(const K&k){ if(!__has(k)) return 0; int i=lower(k); __at(i).~K(); for(int j=0;j+1<SCAP;j++) if(j>=i && j+1<n){ new(&u.d[j]) K(u.d[j+1]); u.d[j+1].~K(); } n--; return 1; }
   size_t size()const{return n;}
@@ -211,6 +245,18 @@ extern ostream cout, cerr;
 // algorithms over model iterators: constant trip count = capacity of the underlying container
 template<class It,class F> F for_each(It a,It b,F f){ for(int k=0;k<It::ICAP;k++) if(a!=b){ f(*a); ++a; } return f; }
 template<class It,class C> It min_element(It a,It b,C c){ if(a==b) return b; It m=a; ++a; for(int k=0;k<It::ICAP;k++) if(a!=b){ if(c(*a,*m)) m=a; ++a; } return m; }
+template<class It,class C> It max_element(It a,It b,C c){ if(a==b) return b; It m=a; ++a; for(int k=0;k<It::ICAP;k++) if(a!=b){ if(c(*m,*a)) m=a; ++a; } return m; }
+template<class It,class T> It find(It a,It b,const T&x){ It r=b; bool f=false; for(int k=0;k<It::ICAP;k++) if(a!=b){ if(!f && *a==x){ r=a; f=true; } ++a; } return r; }
+template<class It,class P> It find_if(It a,It b,P p){ It r=b; bool f=false; for(int k=0;k<It::ICAP;k++) if(a!=b){ if(!f && p(*a)){ r=a; f=true; } ++a; } return r; }
+template<class It,class T> long count(It a,It b,const T&x){ long c=0; for(int k=0;k<It::ICAP;k++) if(a!=b){ if(*a==x) c++; ++a; } return c; }
+template<class It,class P> long count_if(It a,It b,P p){ long c=0; for(int k=0;k<It::ICAP;k++) if(a!=b){ if(p(*a)) c++; ++a; } return c; }
+template<class It,class P> bool any_of(It a,It b,P p){ bool r=false; for(int k=0;k<It::ICAP;k++) if(a!=b){ if(p(*a)) r=true; ++a; } return r; }
+template<class It,class P> bool all_of(It a,It b,P p){ bool r=true; for(int k=0;k<It::ICAP;k++) if(a!=b){ if(!p(*a)) r=false; ++a; } return r; }
+template<class It,class P> bool none_of(It a,It b,P p){ return !any_of(a,b,p); }
+template<class It,class T> void fill(It a,It b,const T&x){ for(int k=0;k<It::ICAP;k++) if(a!=b){ *a=x; ++a; } }
+template<class It,class T> It fill_n(It a,long m,const T&x){ for(int k=0;k<It::ICAP;k++) if(k<m){ *a=x; ++a; } return a; }
+template<class It,class Ot> Ot copy(It a,It b,Ot o){ for(int k=0;k<It::ICAP;k++) if(a!=b){ *o=*a; ++a; ++o; } return o; }
+template<class It,class T> T accumulate(It a,It b,T z){ for(int k=0;k<It::ICAP;k++) if(a!=b){ z=z+*a; ++a; } return z; }
 template<class It> void reverse(It a,It b){ for(int k=0;k<It::ICAP;k++){ if(a!=b){ --b; if(a!=b){ auto t=*a; *a=*b; *b=t; ++a; } } } }
 namespace ranges { template<class It> struct subrange { It b,e; subrange(It b_,It e_):b(b_),e(e_){} It begin()const{return b;} It end()const{return e;} }; }
 }
